@@ -268,6 +268,17 @@ class CaseTimeout(Exception):
     pass
 
 
+# where a metafile lives / what it is called: '%' and braces (format strings), blanks, non-ASCII, upper-case extension
+ODD_META = [("o", "m.torrent"), ("o", "My%20Payload.torrent"), ("100% dir", "m.torrent"), ("o", "{0} %s %(x)s.torrent"),
+            ("o d", "sp ace.torrent"), ("o", "\u00fcn\u00ef.torrent"), ("o", "UPPER.TORRENT")]
+
+
+def odd_meta(case):
+    """(directory name, file name) for the metafile of this case: every third case gets an unusual one."""
+    k = case.get("id", 0) if isinstance(case.get("id", 0), int) else 0
+    return ODD_META[(k // 3) % len(ODD_META)] if k % 3 == 0 else ODD_META[0]
+
+
 def _alarm(signum, frame):
     raise CaseTimeout()
 
